@@ -38,30 +38,33 @@ def _trace_arrow_writer(src):
 SPEC = dict(
     id="C04",
     level_text=(
-        "PARTIAL, with confirmed findings. Model: Arc/Model/C04.lean, the validate -> convertColumnsToTyped -> signature / "
+        "PARTIAL, with known findings. Model: Arc/Model/C04.lean, the validate -> convertColumnsToTyped -> signature / "
         "flushOnSchemaChangeLocked -> buffer -> size trigger / FlushAll -> mergeBatches -> sort / slice -> getSchema -> "
         "AppendValues / NewRecord pipeline over SEQUENCES of requests to one server, with every Go operation of that code that "
         "can panic (type assertion in mergeBatches, name[0] in getSchema/inferSchema, col[idx] in applyPermutation, valid[idx] in "
         "sortTypedColumnBatchByKeys, AppendValues length check, array.NewRecord row check, envHeader[:3+len(db)] in "
-        "AppendRawWithMeta) an explicit `Except Site` step; a panic on the request goroutine is a 500 from fiber's recover "
-        "middleware (rows extracted for the synchronous flush are lost), a panic on a flush goroutine is the death of the process. "
-        "The three full statements (C04_full, C04_reject_stores_nothing, C04_names) are FALSE of the current tree: machine-checked "
-        "witnesses C04_full_witness_empty_name (column \"\" -> name[0]), C04_full_witness_underscore_type_change (`_x` int then "
-        "string shares a buffer -> mergeBatches assertion), C04_full_witness_time_field (row-format field `time` doubles the time "
-        "column -> applyPermutation index), C04_full_witness_request_goroutine, C04_reject_stores_nothing_witness ([good, bad] "
-        "answered 500 with the first record buffered), C04_reject_stores_nothing_witness_import, C04_names_witness_underscore_dropped; "
-        "each is reproduced on the real server by the harness (flush-goroutine crashes in a CHILD PROCESS of the harness that runs "
-        "the unmodified code and dies with exit 2). Proved for ALL request sequences, buffer sizes and WAL settings: C04_partial "
-        "(under the decidable carve-out CleanReq = no empty / `_`-prefixed column name and every column as long as `time`, no "
-        "handler and no flush goroutine ever panics - invariant: every buffer holds clean batches of one signature), "
-        "C04_envelope_safe (+ C04_envelope_limits_tied: a validated database name cannot overflow the WAL envelope header), "
-        "C04_reject_by_validation_unchanged, C04_reject_stores_nothing_partial (single record, no FlushAll), C04_names_partial "
-        "(every non-`_`, non-empty column of a flushed batch is in the written schema), C04_names_typechange, and by `decide` over "
-        "the facts regenerated from the current source C04_facts_tied / C04_signature_skips_tied. ONLY VALIDATED (search, no proof): "
-        "gzip/zstd decoders, the msgpack wire decoder (C02), the line-protocol tokenizer (C01), encoding/csv, the arrow-go Parquet "
-        "reader, the TLE parser, fasthttp/fiber; their outcome enters the model as `pre` (rejected before buffering) and as the "
-        "decoded records that reached the buffer layer (observed through tracing hooks); for CSV/Parquet the 4xx of the parser stage "
-        "is taken from the observed status. Out-of-memory behaviour is not expressible."),
+        "AppendRawWithMeta) an explicit `Except Site` step, guarded or not according to facts regenerated from the current source; "
+        "a panic on the request goroutine is a 500 from fiber's recover middleware (rows extracted for the synchronous flush are "
+        "lost), a panic on a flush goroutine is the death of the process. After the repairs 1d10738, d29da22, 3fc3856 the NO-PANIC "
+        "clause is proved for ALL request sequences, buffer sizes and WAL settings: C04_full_untyped (unconditional for requests "
+        "without typed records: generic msgpack incl. batch/array/row format, line protocol; any names, types, ragged columns) and "
+        "C04_partial (with typed records, under the explicit decidable producer contract CleanReq: the typed batches built by "
+        "parsers outside the model - typed msgpack path, TLE, CSV, Parquet - have columns of one length; monitored on the real code "
+        "as ragged-typed-batch, never fired); supporting: C04_convert_even, C04_empty_name_rejected, C04_time_field_rejected, "
+        "C04_envelope_safe (+ C04_envelope_limits_tied). The other two clauses are FALSE of the current tree (known findings): "
+        "C04_reject_stores_nothing_witness / _witness_import ([good, bad] answered 500 with the first record stored; import answered "
+        "500 because FlushAll failed on another buffer), C04_names_witness_underscore_dropped, "
+        "C04_names_witness_underscore_conflict_rows_lost (`_x` changes type: both requests 204, all rows of the buffer dropped by "
+        "the failed merge); proved instead C04_reject_by_validation_unchanged, C04_reject_stores_nothing_partial (single record, no "
+        "FlushAll), C04_names_partial (every non-`_`, non-empty column of a flushed batch is in the written schema), "
+        "C04_names_typechange, and by `decide` over the regenerated facts C04_facts_tied / C04_signature_skips_tied. Flush-goroutine "
+        "crashes are searched by re-running sequences in a CHILD PROCESS that runs the unmodified code (the three crashes of round "
+        "1 are fixed; their monitors stay live). ONLY VALIDATED (search, no proof): gzip/zstd decoders, the msgpack wire decoder "
+        "(C02), the line-protocol tokenizer (C01), encoding/csv, the arrow-go Parquet reader, the TLE parser, fasthttp/fiber; their "
+        "outcome enters the model as `pre` (rejected before buffering) and as the decoded records that reached the buffer layer "
+        "(observed through tracing hooks); for CSV/Parquet the 4xx of the parser stage is taken from the observed status; panics "
+        "inside those libraries that the recover middleware turns into a 500 are recorded as notes (evidence extra.library_panics). "
+        "Out-of-memory behaviour is not expressible."),
     level_note="proved for the modelled validate -> convert -> buffer -> merge -> schema pipeline; decompressors, CSV/Parquet/TLE/msgpack/LP parsers and fasthttp are outside the model (harness stream there is search only)",
     technique="Lean 4 invariant proof over a panic-explicit executable model of the ingest pipeline; regenerated guard/limit facts; differential correspondence through the real fiber handlers + real ArrowBuffer (sequences of requests to one server instance) with child-process confirmation of flush-goroutine crashes",
     factgen=True,
